@@ -1,14 +1,19 @@
 """Seams: simulated counterparts of socket / selectors / time / threading / os.urandom / inspect,
 installed into the `websocket.*` modules by identity scan.  No source change in /repo is needed."""
+import builtins as _real_builtins
 import importlib
+import importlib.abc
 import inspect as _real_inspect
 import os as _real_os
+import random as _real_random
+import secrets as _real_secrets
 import selectors as _real_selectors
 import socket as _real_socket
 import sys
 import threading as _real_threading
 import time as _real_time
 import types
+import uuid as _real_uuid
 
 from . import net as simnet
 from .kernel import HarnessError, SimAbort, to_ticks
@@ -190,6 +195,27 @@ class SimThread:
         return self.name
 
 
+class SimTimer(SimThread):
+    """threading.Timer: a thread that waits for its interval (or cancel()) and then calls the function."""
+
+    def __init__(self, interval, function, args=None, kwargs=None):
+        super().__init__(name="SimTimer")
+        self.interval = interval
+        self.function = function
+        self.args = args if args is not None else []
+        self.kwargs = kwargs if kwargs is not None else {}
+        self.finished = SimEvent()
+
+    def cancel(self):
+        self.finished.set()
+
+    def run(self):
+        self.finished.wait(self.interval)
+        if not self.finished.is_set():
+            self.function(*self.args, **self.kwargs)
+        self.finished.set()
+
+
 class _CurThread:
     name = "sim"
     daemon = False
@@ -197,6 +223,127 @@ class _CurThread:
     @property
     def ident(self):
         return world().k.cur.tid
+
+
+class SimCondition:
+    """threading.Condition over the simulated kernel (the library does not use one today; a rework of it may)."""
+
+    def __init__(self, lock=None):
+        self._lock = lock if lock is not None else SimRLock()
+        self.acquire = self._lock.acquire
+        self.release = self._lock.release
+        self._tickets = []
+
+    def __enter__(self):
+        return self._lock.__enter__()
+
+    def __exit__(self, *a):
+        return self._lock.__exit__(*a)
+
+    def _release_all(self):
+        lk = self._lock
+        if isinstance(lk, SimRLock):
+            n = lk._count
+            lk._count = 1
+            lk.release()
+            return n
+        lk.release()
+        return 1
+
+    def _reacquire(self, n):
+        lk = self._lock
+        lk.acquire()
+        if isinstance(lk, SimRLock):
+            lk._count = n
+
+    def wait(self, timeout=None):
+        k = world().k
+        k._check_abort()
+        ticket = [False]
+        self._tickets.append(ticket)
+        n = self._release_all()
+        try:
+            ticks = None if timeout is None else to_ticks(max(0, timeout))
+            k.wait(lambda: ticket[0], ticks, "condition")
+        finally:
+            if ticket in self._tickets:
+                self._tickets.remove(ticket)
+            self._reacquire(n)
+        return ticket[0]
+
+    def wait_for(self, predicate, timeout=None):
+        k = world().k
+        end = None if timeout is None else k.now + to_ticks(max(0, timeout))
+        r = predicate()
+        while not r:
+            if end is not None:
+                left = end - k.now
+                if left <= 0:
+                    break
+                self.wait(left / 65536.0)
+            else:
+                self.wait(None)
+            r = predicate()
+        return r
+
+    def notify(self, n=1):
+        for ticket in self._tickets[:n]:
+            ticket[0] = True
+        del self._tickets[:n]
+        k = world().k
+        if k.abort_reason is None:
+            k.yield_point("call")
+
+    def notify_all(self):
+        self.notify(len(self._tickets))
+
+    notifyAll = notify_all
+
+
+class SimSemaphore:
+    def __init__(self, value=1):
+        if value < 0:
+            raise ValueError("semaphore initial value must be >= 0")
+        self._value = value
+
+    def acquire(self, blocking=True, timeout=None):
+        k = world().k
+        k._check_abort()
+        if not blocking:
+            k.yield_point("call")
+            if self._value <= 0:
+                return False
+            self._value -= 1
+            return True
+        ticks = None if timeout is None or timeout < 0 else to_ticks(timeout)
+        if not k.wait(lambda: self._value > 0, ticks, "semaphore"):
+            return False
+        self._value -= 1
+        return True
+
+    def release(self, n=1):
+        self._value += n
+        k = world().k
+        if k.abort_reason is None:
+            k.yield_point("call")
+
+    def __enter__(self):
+        self.acquire()
+        return True
+
+    def __exit__(self, *a):
+        self.release()
+
+
+class SimBoundedSemaphore(SimSemaphore):
+    def __init__(self, value=1):
+        super().__init__(value)
+        self._initial = value
+
+    def release(self, n=1):
+        if self._value + n > self._initial:
+            raise ValueError("Semaphore released too many times")
+        super().release(n)
 
 
 class _FakeModule(types.ModuleType):
@@ -262,6 +409,67 @@ def _urandom(n):
     return world().urandom(n)
 
 
+# ------------------------------------------------------------------------------- randomness other than os.urandom
+class _SimSystemRandom(_real_random.Random):
+    """random.SystemRandom / secrets: operating-system randomness, i.e. draws from the os.urandom seam."""
+
+    def random(self):
+        return (int.from_bytes(_urandom(7), "big") >> 3) * 2.0 ** -53
+
+    def getrandbits(self, k):
+        if k <= 0:
+            return 0
+        n = (k + 7) // 8
+        return int.from_bytes(_urandom(n), "big") >> (n * 8 - k)
+
+    def randbytes(self, n):
+        return _urandom(n)
+
+    def seed(self, *a, **kw):
+        return None
+
+    def getstate(self, *a, **kw):
+        raise NotImplementedError("System entropy source does not have state.")
+
+    setstate = getstate
+
+
+def _prng():
+    """The process-wide Mersenne twister as the library sees it: seeded per run (not operating-system randomness)."""
+    w = world()
+    r = getattr(w, "_lib_prng", None)
+    if r is None:
+        r = w._lib_prng = _real_random.Random(w._drbg.getrandbits(64))
+    return r
+
+
+def _prng_fn(name):
+    def f(*a, **kw):
+        return getattr(_prng(), name)(*a, **kw)
+    f.__name__ = name
+    return f
+
+
+_sysrandom = _SimSystemRandom()
+
+
+def _token_bytes(nbytes=None):
+    return _urandom(32 if nbytes is None else nbytes)
+
+
+def _token_hex(nbytes=None):
+    return _token_bytes(nbytes).hex()
+
+
+def _token_urlsafe(nbytes=None):
+    import base64
+    return base64.urlsafe_b64encode(_token_bytes(nbytes)).rstrip(b"=").decode("ascii")
+
+
+def _uuid4():
+    return _real_uuid.UUID(bytes=_urandom(16), version=4)
+
+
 def _stack(*a, **kw):
     return []
 
@@ -282,13 +490,25 @@ fake_time = _FakeModule(_real_time, {
 fake_threading = _FakeModule(_real_threading, {
     "Lock": SimLock, "RLock": SimRLock, "Event": SimEvent, "Thread": SimThread,
     "current_thread": lambda: _CurThread(), "get_ident": lambda: world().k.cur.tid,
-}, deny=("Condition", "Semaphore", "BoundedSemaphore", "Timer", "Barrier"))
+    "Condition": SimCondition, "Semaphore": SimSemaphore, "BoundedSemaphore": SimBoundedSemaphore, "Timer": SimTimer,
+}, deny=("Barrier",))
 fake_os = _FakeModule(_real_os, {"urandom": _urandom})
+_PRNG_NAMES = ("random", "uniform", "triangular", "randint", "choice", "choices", "randrange", "sample", "shuffle",
+               "getrandbits", "randbytes", "gauss", "normalvariate", "expovariate", "betavariate", "seed")
+fake_random = _FakeModule(_real_random, dict({n: _prng_fn(n) for n in _PRNG_NAMES},
+                                             SystemRandom=lambda *a, **kw: _sysrandom))
+fake_secrets = _FakeModule(_real_secrets, {
+    "token_bytes": _token_bytes, "token_hex": _token_hex, "token_urlsafe": _token_urlsafe,
+    "randbits": _sysrandom.getrandbits, "randbelow": lambda n: _sysrandom.randrange(n), "choice": _sysrandom.choice,
+    "SystemRandom": lambda *a, **kw: _sysrandom,
+})
+fake_uuid = _FakeModule(_real_uuid, {"uuid4": _uuid4})
 fake_inspect = _FakeModule(_real_inspect, {"stack": _stack})
 
 _MODULE_MAP = {
     id(_real_socket): fake_socket, id(_real_selectors): fake_selectors, id(_real_time): fake_time,
     id(_real_threading): fake_threading, id(_real_os): fake_os, id(_real_inspect): fake_inspect,
+    id(_real_random): fake_random, id(_real_secrets): fake_secrets, id(_real_uuid): fake_uuid,
 }
 _OBJ_MAP = {}
 for _real, _fake in ((_real_threading.Lock, SimLock), (_real_threading.RLock, SimRLock),
@@ -299,8 +519,21 @@ for _real, _fake in ((_real_threading.Lock, SimLock), (_real_threading.RLock, Si
                      (_real_selectors.SelectSelector, _selector),
                      (_real_socket.socket, _sock_factory), (_real_socket.getaddrinfo, _getaddrinfo),
                      (_real_socket.create_connection, _create_connection),
-                     (_real_inspect.stack, _stack)):
+                     (_real_inspect.stack, _stack),
+                     (_real_threading.Condition, SimCondition), (_real_threading.Semaphore, SimSemaphore),
+                     (_real_threading.BoundedSemaphore, SimBoundedSemaphore), (_real_threading.Timer, SimTimer),
+                     (_real_threading.current_thread, fake_threading.current_thread),
+                     (_real_threading.get_ident, fake_threading.get_ident),
+                     (_real_time.perf_counter, _monotonic), (_real_time.time_ns, fake_time.time_ns),
+                     (_real_time.monotonic_ns, fake_time.monotonic_ns),
+                     (_real_selectors.PollSelector, _selector), (_real_selectors.EpollSelector, _selector),
+                     (_real_secrets.token_bytes, _token_bytes), (_real_secrets.token_hex, _token_hex),
+                     (_real_secrets.token_urlsafe, _token_urlsafe), (_real_secrets.randbits, _sysrandom.getrandbits),
+                     (_real_random.SystemRandom, fake_random.SystemRandom), (_real_uuid.uuid4, _uuid4)):
     _OBJ_MAP[id(_real)] = _fake
+# the module-level functions of `random` are bound methods of one hidden instance: map each of them by identity too
+for _n in _PRNG_NAMES:
+    _OBJ_MAP[id(getattr(_real_random, _n))] = getattr(fake_random, _n)
 
 _installed = {}
 _REAL_LOCK_T = type(_real_threading.Lock())
@@ -321,6 +554,99 @@ def _is_lib(name):
     return any(name == p or name.startswith(p + ".") for p in _LIB_PREFIXES)
 
 
+# ------------------------------------------------------------------------------- import hook (first line of defence)
+# The identity scan below replaces what a module holds in its globals after import.  It cannot see an import statement
+# that runs later, inside a function (`def f(): import time`).  Every library module is therefore executed with a private
+# builtins dictionary whose __import__ hands out the simulated module for socket / selectors / time / threading / os /
+# random / secrets / uuid / inspect - at module level and inside functions alike.
+def _seam_import(name, globals=None, locals=None, fromlist=(), level=0):
+    m = _real_builtins.__import__(name, globals, locals, fromlist, level)
+    f = _MODULE_MAP.get(id(m))
+    return m if f is None else f
+
+
+class _SeamLoader:
+    def __init__(self, loader):
+        self._loader = loader
+
+    def create_module(self, spec):
+        return self._loader.create_module(spec)
+
+    def exec_module(self, module):
+        b = dict(vars(_real_builtins))
+        b["__import__"] = _seam_import
+        module.__dict__["__builtins__"] = b
+        return self._loader.exec_module(module)
+
+    def __getattr__(self, name):
+        return getattr(self._loader, name)
+
+
+class _SeamFinder(importlib.abc.MetaPathFinder):
+    def find_spec(self, name, path=None, target=None):
+        if not _is_lib(name) or name.startswith("websocket.tests") or name == "websocket._wsdump":
+            return None
+        for f in sys.meta_path:
+            if f is self or not hasattr(f, "find_spec"):
+                continue
+            spec = f.find_spec(name, path, target)
+            if spec is not None:
+                if spec.loader is not None and hasattr(spec.loader, "exec_module"):
+                    spec.loader = _SeamLoader(spec.loader)
+                return spec
+        return None
+
+
+_finder = _SeamFinder()
+
+
+def _scan_callable_defaults(fn, seen):
+    """Default arguments are evaluated when the def statement runs: `def f(now=time.time)` keeps the real clock."""
+    n = 0
+    fn = getattr(fn, "__func__", fn)
+    if not isinstance(fn, types.FunctionType) or id(fn) in seen:
+        return 0
+    seen.add(id(fn))
+    d = fn.__defaults__
+    if d:
+        nd = tuple(_MODULE_MAP.get(id(v)) or _OBJ_MAP.get(id(v)) or v for v in d)
+        if any(a is not b for a, b in zip(d, nd)):
+            fn.__defaults__ = nd
+            n += 1
+    kd = fn.__kwdefaults__
+    if kd:
+        for k_, v in list(kd.items()):
+            f = _MODULE_MAP.get(id(v)) or _OBJ_MAP.get(id(v))
+            if f is not None:
+                kd[k_] = f
+                n += 1
+    return n
+
+
+def _scan_class(cls, modname, seen):
+    n = 0
+    if id(cls) in seen or getattr(cls, "__module__", None) != modname:
+        return 0
+    seen.add(id(cls))
+    for attr, val in list(vars(cls).items()):
+        f = _MODULE_MAP.get(id(val)) or _OBJ_MAP.get(id(val))
+        if f is None and isinstance(val, staticmethod):
+            f0 = _OBJ_MAP.get(id(val.__func__))
+            f = staticmethod(f0) if f0 is not None else None
+        if f is not None:
+            try:
+                setattr(cls, attr, f)
+                n += 1
+            except (AttributeError, TypeError):
+                pass
+            continue
+        if isinstance(val, type):
+            n += _scan_class(val, modname, seen)
+        elif isinstance(val, (types.FunctionType, staticmethod, classmethod)):
+            n += _scan_callable_defaults(val, seen)
+    return n
+
+
 def set_accel(on):
     """Next install(): import the library with (True) or without (False) the stand-in for the optional `wsaccel` package."""
     _want["accel"] = bool(on)
@@ -329,6 +655,25 @@ def set_accel(on):
 def set_socks(on):
     """Next install(): import the library with / without the stand-in for the optional `python_socks` package."""
     _want["socks"] = bool(on)
+
+
+def _import_library():
+    ws = importlib.import_module("websocket")
+    for sub in ("_abnf", "_app", "_cookiejar", "_core", "_dispatcher", "_exceptions", "_handshake",
+                "_http", "_logging", "_socket", "_ssl_compat", "_url", "_utils"):
+        try:
+            importlib.import_module("websocket." + sub)
+        except ImportError:
+            pass
+    # modules a rework may have added: every websocket/_*.py beside the known ones
+    pkgdir = _real_os.path.dirname(_real_os.path.realpath(ws.__file__))
+    for fn in sorted(_real_os.listdir(pkgdir)):
+        if fn.endswith(".py") and fn not in ("__init__.py", "_wsdump.py"):
+            try:
+                importlib.import_module("websocket." + fn[:-3])
+            except Exception:
+                pass
+    return ws
 
 
 def install():
@@ -351,17 +696,17 @@ def install():
     for m in list(sys.modules):
         if m == "websocket" or m.startswith("websocket."):
             del sys.modules[m]
-    ws = importlib.import_module("websocket")
+    sys.meta_path.insert(0, _finder)
+    try:
+        ws = _import_library()
+    finally:
+        if _finder in sys.meta_path:
+            sys.meta_path.remove(_finder)
     wsfile = _real_os.path.realpath(ws.__file__)
     if not wsfile.startswith(root + _real_os.sep):
         raise HarnessError(f"websocket imported from {wsfile}, expected under {root}")
-    for sub in ("_abnf", "_app", "_cookiejar", "_core", "_dispatcher", "_exceptions", "_handshake",
-                "_http", "_logging", "_socket", "_ssl_compat", "_url", "_utils"):
-        try:
-            importlib.import_module("websocket." + sub)
-        except ImportError:
-            pass
     replaced = 0
+    seen = set()
     for name, mod in list(sys.modules.items()):
         if not _is_lib(name) or mod is None:
             continue
@@ -383,6 +728,10 @@ def install():
             if f is not None:
                 setattr(mod, attr, f)
                 replaced += 1
+            elif isinstance(val, type):
+                replaced += _scan_class(val, name, seen)
+            elif isinstance(val, types.FunctionType) and val.__module__ == name:
+                replaced += _scan_callable_defaults(val, seen)
     # the scan must leave nothing real behind
     for name, mod in list(sys.modules.items()):
         if not _is_lib(name) or mod is None:
